@@ -691,7 +691,28 @@ func (b *Builder) Wrap(x *Term, signed bool, bits int) *Term {
 	return b.Sub(b.Mod(b.Add(x, b.Int(h)), b.Int(m)), b.Int(h))
 }
 
+var typeRanges [2][65][2]*big.Int
+
+func init() {
+	for _, b := range []int{8, 16, 32, 64} {
+		typeRanges[0][b][0], typeRanges[0][b][1] = typeRange(false, b)
+		typeRanges[1][b][0], typeRanges[1][b][1] = typeRange(true, b)
+	}
+}
+
+// TypeRange returns the value range of a Go integer type (shared, read-only big.Ints).
 func TypeRange(signed bool, bits int) (*big.Int, *big.Int) {
+	s := 0
+	if signed {
+		s = 1
+	}
+	if bits >= 0 && bits <= 64 && typeRanges[s][bits][0] != nil {
+		return typeRanges[s][bits][0], typeRanges[s][bits][1]
+	}
+	return typeRange(signed, bits)
+}
+
+func typeRange(signed bool, bits int) (*big.Int, *big.Int) {
 	if signed {
 		h := new(big.Int).Lsh(big1, uint(bits-1))
 		return new(big.Int).Neg(h), new(big.Int).Sub(h, big1)
